@@ -37,6 +37,7 @@ func (e *Exec) objOf(b *Term, mapType types.Type, depth int) *MapV {
 		e.assume(jsonValid(v))
 		e.assume(tEq(jcanon(v), v))
 		e.assume(tNe(v, mkStr("")))
+		e.assume(tIntCmp("<=", tStrLen(v), tStrLen(b))) // a member is no longer than the object holding it
 		var val Val
 		switch {
 		case e.branch(tEq(v, nullBlob)):
@@ -52,6 +53,22 @@ func (e *Exec) objOf(b *Term, mapType types.Type, depth int) *MapV {
 		}
 		m.entries = append(m.entries, &mapEntry{k: p, v: val})
 	}
+	// b is canonical: marshaling the unchanged map gives b back (closed world over P)
+	var args []*Term
+	for _, p := range e.props() {
+		has := false
+		for _, en := range m.entries {
+			if en.k.(*Term) == p {
+				has = true
+			}
+		}
+		if has {
+			args = append(args, tTrue, oget(b, p))
+		} else {
+			args = append(args, tFalse, toBlob(mkStr("")))
+		}
+	}
+	e.assume(tImplies(tEq(jcanon(b), b), tEq(mkUF(fmt.Sprintf("omk%d", len(e.props())), SBlob, args...), b)))
 	return m
 }
 
@@ -69,7 +86,15 @@ func (e *Exec) unmarshalObject(data *BytesV, dst *PtrV) Val {
 		return e.newError("json", "cannot unmarshal non-object into map[string]interface{}")
 	}
 	mt, _ := e.world["objMapType"].(types.Type)
-	dst.store(e.objOf(toBlob(data.S), mt, 1))
+	fresh := e.objOf(toBlob(data.S), mt, 1)
+	// json.Unmarshal into a non-nil map keeps the entries the JSON does not mention
+	if old, ok := dst.load().(*MapV); ok && !old.isNil {
+		for _, en := range fresh.entries {
+			e.mapUpdate(old, en.k, en.v)
+		}
+		return nilIface
+	}
+	dst.store(fresh)
 	return nilIface
 }
 
@@ -89,6 +114,7 @@ func (e *Exec) marshalAny(v Val) *Term {
 		// a Go string inside a parsed document marshals to a JSON string literal
 		s := iv.V.(*Term)
 		q := e.injUF("jquote", SBlob, toBlob(s))
+		e.assume(tIntCmp("<=", tStrLen(q), tIntBin("+", tIntBin("*", mkInt(6), tStrLen(toBlob(s))), mkInt(2))))
 		e.assume(jsonValid(q))
 		e.assume(tEq(jcanon(q), q))
 		e.assume(tNe(q, nullBlob))
@@ -138,6 +164,12 @@ func (e *Exec) marshalObject(v Val) *BytesV {
 		e.assume(tEq(jcanon(r), r))
 		e.assume(tNe(r, nullBlob))
 		e.assume(tIntCmp(">=", tStrLen(r), mkInt(2)))
+		// size: at most 2 + sum over members of (value length + name and punctuation)
+		ub := mkInt(2)
+		for i := range P {
+			ub = tIntBin("+", ub, tIte(hs[i], tIntBin("+", tStrLen(gs[i]), mkInt(110)), mkInt(0)))
+		}
+		e.assume(tIntCmp("<=", tStrLen(r), ub))
 	}
 	return bytesOf(r)
 }
@@ -155,6 +187,7 @@ func init() {
 				e.assume(tNot(tStrContains(u, mkStr(ch))))
 			}
 			e.assume(tNe(u, mkStr("")))
+			e.assume(tIntCmp("<", tStrLen(u), mkInt(100))) // bound: property names shorter than 100 bytes
 			P = append(P, u)
 			vals = append(vals, u)
 		}
